@@ -308,7 +308,19 @@ def _m_shared_interface(case, clause, detail, finding):
             and new["acc"] == op["acc"] and old["acc"] != op["acc"])
 
 
+def _m_function_not_equal(case, clause, detail, finding):
+    '''The copied subtree contains a function (a Routine with a return
+    symbol): real == is False although the texts and renders agree.'''
+    if clause != "EqualAfterCopy" or case["history"][-1]["name"] != "copy":
+        return False
+    wit = detail["witness"]
+    if wit["eq"] or wit["text"] or any(wit["diff"].values()):
+        return False
+    return detail.get("copied_ret_uses", 0) > 0
+
+
 MATCHERS = {"c15_decl_use_not_repointed": _m_decl_not_repointed,
+            "c15_function_copy_not_equal": _m_function_not_equal,
             "c15_shared_datatype": _m_shared_datatype,
             "c15_shared_interface": _m_shared_interface}
 
@@ -466,6 +478,9 @@ def run(tier):
     for (hist, rec), clause, wit in bad:
         by_clause[clause] = by_clause.get(clause, 0) + 1
         detail = {"witness": wit}
+        if clause == "EqualAfterCopy":
+            side = json.loads(pool.sides[rec["post"]["O"]])
+            detail["copied_ret_uses"] = sum(1 for u in side["u"] if u["r"] == "ret")
         hit = out.violation(_case(hist, rec), clause, detail)
         if hit is None:
             unmatched += 1
